@@ -239,10 +239,13 @@ def part_headers(ctx):
 
 
 def run(ctx):
+    from props import fngen
+    gen = fngen.start(ctx, 'vars')      # second tie (task gen2): js_string_escape_column_name of rbql.js translated on this run => gen_js_C18_header_unquote_escaped
     part_split(ctx)
     part_write_and_cross(ctx)
     part_readers(ctx)
     part_headers(ctx)
+    fngen.finish(ctx, gen, search_more=lambda langs: extended_headers(ctx))
     ctx.rule = ('A: enumerated lines over the class alphabet {quote, delimiter, space, other} x delimiters (single, multi-character, space) x policies and modes + random Unicode lines: split(py) == split(js) == model; '
                 'B: enumerated and random tables of string/None cells x 5 policies x delimiters x 3 line separators (utf-8): written text and lossy flags py == js == model; '
                 'C: every representable table written by one port is read by the OTHER port: records and warnings == model read-back; '
@@ -251,7 +254,20 @@ def run(ctx):
                 'non-trivial = distinct (line|table|text|select list, configuration)') % (5 if ctx.tier == 'quick' else 6)
 
 
+def extended_headers(ctx):
+    """a generated obligation broke and the run found no failing input: the header part again with the thorough tier's generator"""
+    saved = ctx.tier
+    try:
+        ctx.tier = 'thorough'
+        part_headers(ctx)
+    finally:
+        ctx.tier = saved
+
+
 def replay(ctx, case):
+    if 'fngen_obligation' in case:
+        from props import fngen
+        return fngen.replay(ctx, case)
     part = case.get('part', '')
     ctx.count()
     if part.startswith('cross') or part == 'readers':
